@@ -37,6 +37,13 @@ MUT = {
         "v19-table-points-to-old-constructor": [("src/spox/opset/ai/onnx/v19.py", "    \"Pad\": pad,\n", "    \"Pad\": _old_pad,\n"),
                                                 ("src/spox/opset/ai/onnx/v19.py", "from spox._var import Var\n", "from spox._var import Var\nfrom spox.opset.ai.onnx.v18 import pad as _old_pad\n")],
     },
+    # rewrites that do not change behaviour: the check must stay quiet (exit 0)
+    "C11-harmless": {
+        "attr-fields-reordered-argmax": [(V17, "        axis: AttrInt64\n        keepdims: AttrInt64\n        select_last_index: AttrInt64\n", "        select_last_index: AttrInt64\n        keepdims: AttrInt64\n        axis: AttrInt64\n")],
+        "local-and-validation-in-relu": [(V17, "    return _Relu(\n", "    _checked = isinstance(X, Var)\n    if not _checked:\n        raise TypeError('X must be a Var')\n    return _Relu(\n")],
+        "attr-kwargs-reordered-reducesum": [(V17, "            keepdims=AttrInt64(keepdims, name=\"keepdims\"),\n            noop_with_empty_axes=AttrInt64(\n                noop_with_empty_axes, name=\"noop_with_empty_axes\"\n            ),\n        ),\n        _ReduceSum.Inputs(", "            noop_with_empty_axes=AttrInt64(\n                noop_with_empty_axes, name=\"noop_with_empty_axes\"\n            ),\n            keepdims=AttrInt64(keepdims, name=\"keepdims\"),\n        ),\n        _ReduceSum.Inputs(")],
+        "float-default-respelled": [(V17, "    alpha: float = 0.009999999776482582,", "    alpha: float = 0.01,")],
+    },
     "C18": {
         "plain-node-trims-trailing": [("src/spox/_node.py", "        return len(self.inputs)\n", "        return 0\n")],
         "import-min-instead-of-max": [("src/spox/_schemas.py", "return {domain: max(v for _, v in group) for domain, group in grouping}", "return {domain: min(v for _, v in group) for domain, group in grouping}")],
@@ -68,7 +75,7 @@ def run_one(pid, name, edits, tier="quick"):
             return f"{name}: PATTERN NOT FOUND in {rel}"
         p.write_text(t.replace(old, new, 1))
     try:
-        r = sh(f"./check {pid} {tier}", cwd=V)
+        r = sh(f"./check {pid.split('-')[0]} {tier}", cwd=V)
         out = r.stdout + r.stderr
         viol = re.findall(r"^VIOLATION property=\S+ replay=(\S+)(.*)$", out, re.M)
         broken = re.findall(r"BROKEN (\w+): (.{0,90})", out)
@@ -94,4 +101,4 @@ if __name__ == "__main__":
     for n in names:
         print(run_one(pid, n, MUT[pid][n]), flush=True)
     # leave the generated tables in their clean-tree state
-    sh(f"./check {pid} quick", cwd=V)
+    sh(f"./check {pid.split('-')[0]} quick", cwd=V)
